@@ -32,8 +32,11 @@ CLAIMED = {
                  'executions never return different values nor one a value and the other an error (C01_plain_values_agree, '
                  'C01_plain_value_excludes_failure). From the inductive invariant PInv with value tracking (Att, agree_of_nodes). '
                  'The driver checks on every generated plain program that the theorem hypotheses hold and that the reference '
-                 'evaluator Sem is a solution. Partial for switch / one-of / recurrent shapes: Sem is compared with the real '
-                 'outcome and every node invocation by the monitors inside the fragments; no theorem there.', '§6 C01'),
+                 'evaluator Sem is a solution. Switch pipelines (any nesting / sharing, no one-of / recurrent), all schedules, safety: a '
+                 'returned value is the dataflow value of the output for every solution of the equations with switches, two runs never '
+                 'return different values, no value is returned when the output has none (C01_switch_*, from the frame-local invariant '
+                 'SInv of Proofs/Safe.lean); termination is not a theorem there. Partial for one-of / recurrent shapes: Sem is compared '
+                 'with the real outcome and every node invocation by the monitors inside the fragments; no theorem there.', '§6 C01'),
     'C02': sched('Proof (plain pipelines, full strength on the model): for every pipeline of Input dependencies (any size / shape, '
                  'any retry / default / mode settings, failures anywhere, collaborators that do not suspend), under every interleaving '
                  'of task sections, every completion order of bodies and timers, every topological launch order and cancellation of '
@@ -51,7 +54,9 @@ CLAIMED = {
     'C03': sched('Proof (plain pipelines, all schedules): every body invocation of a pending run gets exactly the dataflow values of '
                  'its declared sources, all of which exist, never a failure object or Recurrent marker '
                  '(C03_plain_invocation_arguments); an exception object stored by a one-of scope fails the consumer instead of being '
-                 'passed on (C03_exception_value_fails_consumer, all programs). General, local tier: in the model a node is launched only in a section where `ready` holds — every '
+                 'passed on (C03_exception_value_fails_consumer, all programs). Switch pipelines, all schedules: every observed body call '
+                 'has exactly the dataflow values as arguments — for a switch parameter the selected case\'s value — and every stored '
+                 'result is final (C03_switch_body_arguments, C03_switch_results_final). General, local tier: in the model a node is launched only in a section where `ready` holds — every '
                  '(resolved) source has a stored, visible, non-Recurrent result — and its kwargs are exactly the stored results '
                  'of its sources under the declared names; the input node gets the caller\'s kwargs (C03_* in Props/C03.lean, all '
                  'programs, all states). That stored results are final is C01\'s invariant (partial: tied and monitored against Sem '
@@ -62,7 +67,9 @@ CLAIMED = {
                  '§6 C04'),
     'C05': sched('Proof (plain pipelines, all schedules): an error verdict is the retry/default policy\'s failure of a node of the pipeline '
                  'whose sources all had values (C05_plain_error_is_a_required_node_failure) and a failing node is never masked by a '
-                 'value (C05_plain_failure_is_never_masked). General, local tier: the outcome computed by manager.run/chart.run is the exception of a *finished, '
+                 'value (C05_plain_failure_is_never_masked). Switch pipelines, all schedules: an error outcome is the final failure of a '
+                 'node on its dataflow arguments, a collaborator\'s exception, the no-case error of a switch whose decision names no '
+                 'case, or a setup error; no value when the output has none (C05_switch_*). General, local tier: the outcome computed by manager.run/chart.run is the exception of a *finished, '
                  'non-cancelled* engine task (wrapped iff it is an Exception) or, when no task failed, the stored output value '
                  '(C05_* in Props/C05.lean). Partial: that a task fails only if a required node failed is tied by lock-step and '
                  'monitored against Sem in the fragments.', '§6 C05'),
@@ -79,10 +86,18 @@ CLAIMED = {
             '(C08_projection_is_solo_run, by induction over all interleavings). Tie: 2–4 overlapping runs of one chart on one loop '
             '(one possibly cancelled); each run\'s events are replayed on its own fresh model instance, so any influence of another '
             'run is a divergence; outcomes compared with solo runs.', SCHED_NOTE, '§6 C08'),
-    'C09': sched('Proof (general, local tier): _run_switch selects exactly a declared case whose label is the stored result of the '
-                 'decision node, records it, runs input→case inline; an unmatched label wakes run() and fails with SwitchNoCase; '
-                 'case edges are invisible in every reduced DAG (C09_*). Partial: routing/liveness under all schedules is tied and '
-                 'monitored (private cases).', '§6 C09'),
+    'C09': sched('Proof (switch pipelines — any nesting, shared cases and deciders, cases that are also ordinary dependencies; no '
+                 'one-of / recurrent — all schedules, safety): in every reachable state the recorded decision of a switch is the '
+                 'declared case of the label its decision node has in the dataflow semantics, the switch\'s value is that case\'s '
+                 'value, and every stored result, body argument, saved value, reported and returned outcome is the semantic one '
+                 '(C09_switch_decision_is_semantic, _results_agree, _invocation_arguments, _observations, _returned_value, '
+                 '_error_has_cause; invariant SInv of Proofs/Safe.lean, preserved by every handler of manager.py\'s coroutines; '
+                 'collaborators may suspend and raise). The driver evaluates the hypotheses (SwP, SolutionSw of the eager values, '
+                 'agreement with Sem) on every generated switch-only program. General, local tier (all programs): _run_switch selects '
+                 'exactly a declared case whose label is the stored result of the decision node, an unmatched label wakes run() and '
+                 'fails with SwitchNoCase, case edges are invisible in every reduced DAG (C09_*). Partial: laziness (non-selected cases '
+                 'never run) and termination under all schedules are tied and monitored (trace-only routing monitor everywhere, Sem '
+                 'inside the fragment), not theorems.', '§6 C09'),
     'C10': sched('Proof (general, local to _run_oneof): candidates are opened and started strictly in declared order, the next only '
                  'after a recorded failure of the current one, none after a success; unopened candidates are invisible; exhaustion '
                  'yields OneOfDoesNotHaveResultError, contained when nested (C10_*). Partial: first-success semantics under all '
@@ -95,7 +110,9 @@ CLAIMED = {
             'Proof (full strength): Retry.run — the attempt loop of __execute_node with NodeRetryPolicy defaults — invokes the body '
             'exactly m = min(first non-retryable-or-success, attempts) times, sleeps `delay` between attempts, and yields value / '
             'default / last exception as specified, for every configuration and every outcome sequence (C12_spec, C12_stops, …); '
-            'the engine model applies exactly these decisions for any node in any pipeline (C12_engine_*). Tie: the whole grid of '
+            'the engine model applies exactly these decisions for any node in any pipeline (C12_engine_*); in switch / plain '
+            'pipelines under all schedules every observed body call is within the budget and follows only retryable failures, and '
+            'get_default is computed only when the policy ends in the default (C12_switch_attempts). Tie: the whole grid of '
             'configurations × outcome sequences (≤4) runs on the real engine with a virtual clock and is compared with Retry.run; '
             'retry-heavy general pipelines are lock-stepped and monitored (same arguments on every attempt).',
             SCHED_NOTE + ' exceptions ⊆ Exception and attempts ≥ 0 as annotated.', '§6 C12'),
@@ -106,7 +123,10 @@ CLAIMED = {
     'C14': sched('Proof (general, local tier): on_pipeline_start first; on_pipeline_complete carries the returned outcome; a node '
                  'execution starts with on_node_start in the section that marks it processed; one on_node_complete per raising '
                  'attempt, error=None iff a value/default; the value is stored strictly after the successful on_node_complete '
-                 'returned, even when callbacks suspend (C14_*).', '§6 C14'),
+                 'returned, even when callbacks suspend (C14_*). Switch / plain pipelines, all schedules: success is reported only for a '
+                 'node that has a value, a reported error is one the body raised on its declared arguments or a collaborator\'s, the '
+                 'reported outcome is justified (C14_switch_reports_are_truthful); the ordering of events over a whole run is tied, '
+                 'not a theorem.', '§6 C14'),
     'C15': ('Lean 4 proof about the worklist builder model (closure of the traversal, per-mark contributions) + differential correspondence',
             'Proof: Builder.build — the model of build_dag with its real LIFO worklist and per-mark graph construction — visits exactly '
             'the declared nodes the output can reach (completeness and soundness of the worklist, any size/shape), contains for every '
@@ -153,7 +173,10 @@ CLAIMED = {
         '§6 C18'),
     'C19': sched('Proof (general, local tier): the model calls the artifact store only in nodePost, iff the task executed the node '
                  'itself and the result is a real value (never a Recurrent marker, a contained failure or a duplicate), with the value '
-                 'just stored (C19_*). Recurrent re-iterations re-save inner nodes: listed finding.', '§6 C19'),
+                 'just stored (C19_*). Switch / plain pipelines, all schedules: every value handed to the store in any execution is the '
+                 'node\'s final dataflow value — the one its consumers receive — never a marker or an exception object '
+                 '(C19_switch_saved_value_is_final, C19_switch_saves_agree); exactly-once over a whole run is tied, not a theorem. '
+                 'Recurrent re-iterations re-save inner nodes: listed finding.', '§6 C19'),
 }
 
 ALL = [f'C{i:02d}' for i in range(1, 21)]
